@@ -5,7 +5,8 @@
     symbolic integer; the rendered Python source is parsed with ast, tokens are mapped back to terms and compared with
     the in-memory fields by SMT - for all field values at once.
 (2) Per program (the C03 programs) x scope: the Python-language tables, imported, equal the in-memory tables (tzdb.json);
-    zones.txt equals the emitted set; header counts equal the entries; every basic zone is an extended zone.
+    zones.txt equals the emitted set; header counts equal the entries; every basic zone is an extended zone and its
+    generated C++ tables decode (library brokers) to the same eras and rules in both scopes.
 (3) Determinism: NOT decided by this technique (it quantifies over interpreter hash seeds, not program inputs); as a
     smoke test each configuration is compiled in two interpreters with different PYTHONHASHSEED and the outputs diffed."""
 import sys
@@ -206,6 +207,64 @@ def consistency(kc, name, text, scope, rep):
     if set(listed) != set(tz['zones_map'].keys()):
         kc._record('zonelist:%s' % tag, 'program %s (%s): zones.txt differs from the emitted zones' % (name, scope), True, {})
     rep['emitted'][tag] = sorted(tz['zones_map'].keys())
+    return outs[('arduino', 1)], tz
+
+
+def truncated_zones(tz):
+    t = set(z for z, notes in tz['notable_zones'].items() if any('truncated' in n for n in notes))
+    tpol = set(p for p, notes in tz['notable_policies'].items() if any('truncated' in n for n in notes))
+    for z, eras in tz['zones_map'].items():
+        if any(e.get('rules') in tpol for e in eras):
+            t.add(z)
+    return t
+
+
+def cross_scope_tables(kc, name, gen, rep):
+    """Both scopes' generated C++ tables of one program, compiled with the library and decoded through the library's own
+    brokers (native dumper h_c20.cpp): every zone emitted in both scopes and carrying no truncation note must decode to the
+    same eras and rules - the two processors are then given the same TZ data (their agreement on equal data is C02)."""
+    import shutil
+    dst = os.path.join(kc.wd, 'src_both_' + name)
+    shutil.copytree(os.path.join(build.REPO, 'src'), dst)
+    for scope, db in (('basic', 'zonedb'), ('extended', 'zonedbx')):
+        for f in ('zone_infos.h', 'zone_infos.cpp', 'zone_policies.h', 'zone_policies.cpp', 'zone_registry.h', 'zone_registry.cpp'):
+            shutil.copy(os.path.join(gen[scope][0], f), os.path.join(dst, 'ace_time', db, f))
+    wd2 = os.path.join(kc.wd, 'nat_both_' + name)
+    os.makedirs(wd2)
+    try:
+        exe = build.build_native([os.path.join(build.VERIF, 'harness', 'h_c20.cpp')], wd2, src_root=dst, out='c20dump')
+    except RuntimeError as e:
+        kc._record('generated-tables-do-not-compile:%s' % name, 'program %s: the generated tables of the two scopes do not compile '
+                   'with the library: %s' % (name, str(e)[-400:]), True, {})
+        shutil.rmtree(dst, ignore_errors=True)
+        return
+    dumps = {}
+    for scope, arg in (('basic', 0), ('extended', 1)):
+        rc, lines, err = build.run_native(exe, 'c20_dump', [arg], [], timeout=120)
+        if rc != 0:
+            kc.inconclusive.append('c20_dump %s %s: exit %s %s' % (name, scope, rc, err[-200:]))
+            return
+        d = {}
+        for ln in lines:
+            p = ln.split(' ', 3)
+            if p[0] == 'OBSS' and len(p) == 4:
+                d.setdefault(p[2], []).append((p[1], p[3]))
+        dumps[scope] = d
+    shutil.rmtree(dst, ignore_errors=True)
+    shutil.rmtree(wd2, ignore_errors=True)
+    skip = truncated_zones(gen['basic'][1]) | truncated_zones(gen['extended'][1])
+    shared = sorted((set(dumps['basic']) & set(dumps['extended'])) - skip)
+    rep['cross_scope'][name] = {'shared_zones': len(shared), 'skipped_truncated': sorted(skip & set(dumps['basic'])),
+                                'records': sum(len(dumps['basic'][z]) for z in shared)}
+    for z in shared:
+        b, x = dumps['basic'][z], dumps['extended'][z]
+        rep['entries_compared'] += len(b)
+        if b != x:
+            k = next((i for i, (u, v) in enumerate(zip(b, x)) if u != v), min(len(b), len(x)))
+            kc._record('cross-scope:%s:%s' % (name, z), 'program %s: zone %s decodes differently from the generated basic and extended '
+                       'tables (no truncation note): basic %r, extended %r' % (
+                           name, z, b[k] if k < len(b) else None, x[k] if k < len(x) else None), True,
+                       {'zone': z, 'basic': b[k] if k < len(b) else None, 'extended': x[k] if k < len(x) else None})
 
 
 def main():
@@ -213,11 +272,14 @@ def main():
     kc = common.KernelCheck(a, ['h_zone.cpp'], with_zonedb=True, with_zonedbx=True, level='other')
     stats = {'paths': 0, 'queries': 0}
     symbolic_rendering(kc, stats)
-    rep = {'files_compared': 0, 'entries_compared': 0, 'emitted': {}}
+    rep = {'files_compared': 0, 'entries_compared': 0, 'emitted': {}, 'cross_scope': {}}
     programs = [('synthetic', pipeline.synthetic_source()), ('reconstructed', pipeline.reconstructed_source())]
     for name, text in programs:
+        gen = {}
         for scope in ('extended', 'basic'):
-            consistency(kc, name, text, scope, rep)
+            gen[scope] = consistency(kc, name, text, scope, rep)
+        if gen['extended'] and gen['basic']:
+            cross_scope_tables(kc, name, gen, rep)
         b, x = set(rep['emitted'].get(name + '_basic', [])), set(rep['emitted'].get(name + '_extended', []))
         if not b <= x:
             kc._record('basic-not-subset:%s' % name, 'program %s: basic zones not emitted in extended scope: %s' % (name, sorted(b - x)[:5]), True, {})
@@ -226,13 +288,14 @@ def main():
         'explanation': ('(1) symbolic: the real PythonGenerator item renderers executed by pysym with all numeric fields symbolic; the '
                         'rendered source is parsed with ast and each rendered field compared with the in-memory field by an SMT query '
                         '(%d queries over %d paths, all unsat). (2) concrete, per program x scope: imported Python tables == in-memory '
-                        'tables (%d entries), header counts, zones.txt, basic is a subset of extended. (3) determinism is NOT decided by a '
+                        'tables (%d entries), header counts, zones.txt, basic is a subset of extended, and every zone emitted in both scopes without a truncation note decodes (library brokers on the compiled generated tables) to the same eras and rules. (3) determinism is NOT decided by a '
                         'solver: two compilations per configuration in interpreters with different hash seeds, %d files diffed '
                         'byte for byte (smoke test).' % (stats['queries'], stats['paths'], rep['entries_compared'], rep['files_compared'])),
         'evaluations': stats['queries'] + rep['entries_compared'], 'distinct_nontrivial': stats['queries'] + rep['entries_compared'],
         'samples': [{'symbolic_render_queries': stats}, {'programs': [n for n, _ in programs]}],
         'programs': len(programs), 'render_queries': stats, 'files_compared_for_determinism': rep['files_compared'],
         'entries_compared': rep['entries_compared'],
+        'cross_scope_tables': rep['cross_scope'],
         'emitted_counts': dict((k, len(v)) for k, v in rep['emitted'].items()),
         'not_decided': ['determinism across interpreter hash seeds (smoke-tested only)'],
         'outside_bounds': ['tools/zonedbpy (the checked-in, stale Python database) is covered by C04', 'sources other than the listed programs'],
